@@ -1,13 +1,12 @@
 import Psa.Checks
 /-! The allow-lists of the Pod Security Standards as published (DESIGN.md Appendix A), written by hand and
-    independently of `Psa/Generated/Tables.lean`, which is regenerated from /repo on every run.
+    independently of `Psa/Generated/Tables.lean` (set-valued lists in sorted order, as sets.List() prints them), which is regenerated from /repo on every run.
     `Props/C02.lean` proves the two equal. -/
 namespace PSA.Std
 open PSA
 
 def publishedTables : Tables where
-  capsBaseline := [b!"AUDIT_WRITE", b!"CHOWN", b!"DAC_OVERRIDE", b!"FOWNER", b!"FSETID", b!"KILL", b!"MKNOD",
-    b!"NET_BIND_SERVICE", b!"SETFCAP", b!"SETGID", b!"SETPCAP", b!"SETUID", b!"SYS_CHROOT"]
+  capsBaseline := [b!"AUDIT_WRITE", b!"CHOWN", b!"DAC_OVERRIDE", b!"FOWNER", b!"FSETID", b!"KILL", b!"MKNOD", b!"NET_BIND_SERVICE", b!"SETFCAP", b!"SETGID", b!"SETPCAP", b!"SETUID", b!"SYS_CHROOT"]
   capsRestrictedAdd := [b!"NET_BIND_SERVICE"]
   capAll := b!"ALL"
   seccompTypes := [b!"Localhost", b!"RuntimeDefault"]
@@ -18,20 +17,12 @@ def publishedTables : Tables where
   appArmorAnnPrefix := b!"localhost/"
   procMountDefault := b!"Default"
   volAllowed := [.configMap, .csi, .downwardAPI, .emptyDir, .ephemeral, .persistentVolumeClaim, .projected, .secret]
-  sysctls0 := [b!"kernel.shm_rmid_forced", b!"net.ipv4.ip_local_port_range", b!"net.ipv4.tcp_syncookies",
-    b!"net.ipv4.ping_group_range", b!"net.ipv4.ip_unprivileged_port_start"]
-  sysctls27 := [b!"kernel.shm_rmid_forced", b!"net.ipv4.ip_local_port_range", b!"net.ipv4.tcp_syncookies",
-    b!"net.ipv4.ping_group_range", b!"net.ipv4.ip_unprivileged_port_start", b!"net.ipv4.ip_local_reserved_ports"]
-  sysctls29 := [b!"kernel.shm_rmid_forced", b!"net.ipv4.ip_local_port_range", b!"net.ipv4.tcp_syncookies",
-    b!"net.ipv4.ping_group_range", b!"net.ipv4.ip_unprivileged_port_start", b!"net.ipv4.ip_local_reserved_ports",
-    b!"net.ipv4.tcp_keepalive_time", b!"net.ipv4.tcp_fin_timeout", b!"net.ipv4.tcp_keepalive_intvl",
-    b!"net.ipv4.tcp_keepalive_probes"]
-  sysctls32 := [b!"kernel.shm_rmid_forced", b!"net.ipv4.ip_local_port_range", b!"net.ipv4.tcp_syncookies",
-    b!"net.ipv4.ping_group_range", b!"net.ipv4.ip_unprivileged_port_start", b!"net.ipv4.ip_local_reserved_ports",
-    b!"net.ipv4.tcp_keepalive_time", b!"net.ipv4.tcp_fin_timeout", b!"net.ipv4.tcp_keepalive_intvl",
-    b!"net.ipv4.tcp_keepalive_probes", b!"net.ipv4.tcp_rmem", b!"net.ipv4.tcp_wmem"]
-  selinux0 := [b!"", b!"container_t", b!"container_init_t", b!"container_kvm_t"]
-  selinux31 := [b!"", b!"container_t", b!"container_init_t", b!"container_kvm_t", b!"container_engine_t"]
+  sysctls0 := [b!"kernel.shm_rmid_forced", b!"net.ipv4.ip_local_port_range", b!"net.ipv4.ip_unprivileged_port_start", b!"net.ipv4.ping_group_range", b!"net.ipv4.tcp_syncookies"]
+  sysctls27 := [b!"kernel.shm_rmid_forced", b!"net.ipv4.ip_local_port_range", b!"net.ipv4.ip_local_reserved_ports", b!"net.ipv4.ip_unprivileged_port_start", b!"net.ipv4.ping_group_range", b!"net.ipv4.tcp_syncookies"]
+  sysctls29 := [b!"kernel.shm_rmid_forced", b!"net.ipv4.ip_local_port_range", b!"net.ipv4.ip_local_reserved_ports", b!"net.ipv4.ip_unprivileged_port_start", b!"net.ipv4.ping_group_range", b!"net.ipv4.tcp_fin_timeout", b!"net.ipv4.tcp_keepalive_intvl", b!"net.ipv4.tcp_keepalive_probes", b!"net.ipv4.tcp_keepalive_time", b!"net.ipv4.tcp_syncookies"]
+  sysctls32 := [b!"kernel.shm_rmid_forced", b!"net.ipv4.ip_local_port_range", b!"net.ipv4.ip_local_reserved_ports", b!"net.ipv4.ip_unprivileged_port_start", b!"net.ipv4.ping_group_range", b!"net.ipv4.tcp_fin_timeout", b!"net.ipv4.tcp_keepalive_intvl", b!"net.ipv4.tcp_keepalive_probes", b!"net.ipv4.tcp_keepalive_time", b!"net.ipv4.tcp_rmem", b!"net.ipv4.tcp_syncookies", b!"net.ipv4.tcp_wmem"]
+  selinux0 := [b!"", b!"container_init_t", b!"container_kvm_t", b!"container_t"]
+  selinux31 := [b!"", b!"container_engine_t", b!"container_init_t", b!"container_kvm_t", b!"container_t"]
   windows := b!"windows"
 
 end PSA.Std
